@@ -22,6 +22,7 @@ type Env struct {
 	where   string
 	noHeap  bool
 	side    *[]string // typing side conditions of heap reads inside the innermost quantifier
+	lemmaPrem []string
 }
 
 // typed records that a term read from a heap has its Go type's invariant (well-typed heap axiom).
@@ -169,6 +170,27 @@ func (env *Env) eval(e *SExpr) Val {
 		return env.evalSlice(e)
 	case "call":
 		return env.evalCall(e)
+	case "lit":
+		t := env.typeOf(e.Name)
+		if t == nil {
+			env.errf("unknown type %q in composite literal", e.Name)
+			return intVal("0")
+		}
+		st, ok := t.Underlying().(*types.Struct)
+		if !ok || st.NumFields() != len(e.Args) {
+			env.errf("composite literal %s needs all %d fields, positionally", e, st.NumFields())
+			return intVal("0")
+		}
+		name := reg.structSort(st, typeHint(t))
+		var fs []string
+		for i, a := range e.Args {
+			v := env.coerce(env.eval(a), st.Field(i).Type())
+			fs = append(fs, v.S)
+		}
+		if len(fs) == 0 {
+			return Val{S: "mk_" + name, T: t}
+		}
+		return Val{S: fmt.Sprintf("(mk_%s %s)", name, strings.Join(fs, " ")), T: t}
 	case "unary":
 		x := env.eval(e.Args[0])
 		switch e.Name {
@@ -203,14 +225,33 @@ func (env *Env) eval(e *SExpr) Val {
 			sym := fmt.Sprintf("q!%s!%d", sanitize(v.Name), env.quant)
 			binders = append(binders, fmt.Sprintf("(%s %s)", sym, sortOf(t)))
 			n.vars[v.Name] = Val{S: sym, T: t}
-			if g := typeInv(sym, t); g != "" && g != "true" {
+			// quantifier-free part only: a nested quantifier in guard position would have to be proved at every
+			// instantiation
+			if g := typeInvQF(sym, t); g != "" && g != "true" {
 				guards = append(guards, g)
 			}
 		}
 		body := n.evalBool(e.Args[0])
 		guards = append(guards, dedup(side)...)
 		g := and(guards...)
+		pats := ""
+		for _, mp := range e.Trig {
+			var ts []string
+			for _, t := range mp {
+				tt := n.evalTrigger(t)
+				if tt == "" {
+					continue
+				}
+				ts = append(ts, tt)
+			}
+			if len(ts) > 0 {
+				pats += " :pattern (" + strings.Join(ts, " ") + ")"
+			}
+		}
 		if e.Op == "forall" {
+			if pats != "" {
+				return boolVal(fmt.Sprintf("(forall (%s) (! %s%s))", strings.Join(binders, " "), implies(g, body), pats))
+			}
 			return boolVal(fmt.Sprintf("(forall (%s) %s)", strings.Join(binders, " "), implies(g, body)))
 		}
 		return boolVal(fmt.Sprintf("(exists (%s) %s)", strings.Join(binders, " "), and(g, body)))
@@ -407,7 +448,10 @@ func (env *Env) evalIndex(e *SExpr) Val {
 		dom := sel(env.heap(dn, ds), x.S)
 		vals := sel(env.heap(vn, vs), x.S)
 		k := env.coerce(i, t.Key())
-		return Val{S: ite(and(not(eq(x.S, "0")), sel(dom, k.S)), sel(vals, k.S), zeroTerm(t.Elem())), T: t.Elem()}
+		_ = dom
+		// contract convention: m[k] is the stored value and is only meaningful under "k in m" (no zero default);
+		// this keeps quantified invariants free of ite terms, which cannot be used in triggers
+		return Val{S: sel(vals, k.S), T: t.Elem()}
 	case *types.Pointer:
 		if at, ok := t.Elem().Underlying().(*types.Array); ok {
 			hn, hs := elemHeapName(at.Elem())
@@ -780,4 +824,80 @@ func (e *Engine) ghostType(ts *TypeSpec, g SVar) ghostTypeInfo {
 		t = types.Typ[types.Int]
 	}
 	return ghostTypeInfo{t: t, sort: sortOf(t)}
+}
+
+type expClause struct {
+	name string
+	term string
+}
+
+// expand evaluates clauses; inv(x) / invExcept(x, a, b...) expand to the named invariants of x's type.
+func (env *Env) expand(cls []Clause) []expClause {
+	var out []expClause
+	for i, c := range cls {
+		nm := c.Name
+		if nm == "" {
+			nm = fmt.Sprintf("%d", i)
+		}
+		if c.Expr.Op == "call" && (c.Expr.Name == "inv" || c.Expr.Name == "invExcept") && len(c.Expr.Args) >= 1 {
+			x := env.eval(c.Expr.Args[0])
+			ts := env.eng.typeSpecFor(deref(x.T))
+			if ts == nil {
+				env.errf("inv(): no invariants declared for %s", x.T)
+				continue
+			}
+			skip := map[string]bool{}
+			for _, a := range c.Expr.Args[1:] {
+				skip[a.String()] = true
+			}
+			tenv := *env
+			tenv.pkg = env.eng.typesPkg(ts.Pkg)
+			tenv.vars = map[string]Val{ts.RecvVar: x}
+			tenv.where = "invariant of " + ts.Name
+			for j, inv := range ts.Invs {
+				in := inv.Name
+				if in == "" {
+					in = fmt.Sprintf("%d", j)
+				}
+				if skip[in] {
+					continue
+				}
+				out = append(out, expClause{name: "inv." + in, term: tenv.evalBool(inv.Expr)})
+			}
+			continue
+		}
+		out = append(out, expClause{name: nm, term: env.evalBool(c.Expr)})
+	}
+	return out
+}
+
+// evalTrigger evaluates a trigger term: dom(m, k) and val(m, k) name the raw selects of a map; any other
+// expression must evaluate to a term without ite / boolean structure.
+func (env *Env) evalTrigger(t *SExpr) string {
+	if t.Op == "call" && (t.Name == "dom" || t.Name == "val") && len(t.Args) == 2 {
+		m := env.eval(t.Args[0])
+		k := env.eval(t.Args[1])
+		if mt, ok := m.T.Underlying().(*types.Map); ok {
+			dn, vn, ds, vs, _ := mapHeapNames(mt)
+			k = env.coerce(k, mt.Key())
+			if t.Name == "dom" {
+				return sel(sel(env.heap(dn, ds), m.S), k.S)
+			}
+			return sel(sel(env.heap(vn, vs), m.S), k.S)
+		}
+		if gm, ok := m.T.(*ghostMapType); ok {
+			k = env.coerce(k, gm.key)
+			return sel(m.S, k.S)
+		}
+		env.errf("dom/val trigger needs a map: %s", t)
+		return ""
+	}
+	v := env.eval(t)
+	for _, bad := range []string{"(ite ", "(and ", "(or ", "(not ", "(=> ", "(= ", "(< ", "(<= "} {
+		if strings.Contains(v.S, bad) {
+			env.errf("trigger %s evaluates to a term with boolean structure (%s)", t, bad)
+			return ""
+		}
+	}
+	return v.S
 }
